@@ -174,6 +174,9 @@ pcgstrf_column_dfs(
 		    Gstat->procstat[pnum].unpruned++;
 #endif		    
 		}
+#ifdef SLU_MT_VERIF
+		SLU_MT_VERIF_EVENT(SLUV_DFS_STEP, pnum, krep, ispruned[krep], jcol, Glu);
+#endif
 		
 		do {
 		    /* 
@@ -227,6 +230,9 @@ pcgstrf_column_dfs(
 					Gstat->procstat[pnum].unpruned++;
 #endif		    
 				    }
+#ifdef SLU_MT_VERIF
+				    SLU_MT_VERIF_EVENT(SLUV_DFS_STEP, pnum, krep, ispruned[krep], jcol, Glu);
+#endif
 				}
 			    } /* else */
 			} /* if */
